@@ -36,7 +36,7 @@ func (r *Rng) Fork(i int) *Rng { return NewRng(r.s ^ (uint64(i)+1)*0xD1B54A32D19
 
 // ---- cell alphabets ----
 
-var colNames = []string{"a", "b", "c", "d", "index", "k", "v", "GroupKey", "stat", "a|b", "x:y", "", " a", "a ", "b\t"}
+var colNames = []string{"a", "b", "c", "d", "index", "k", "v", "GroupKey", "stat", "a|b", "x:y", "", " a", "a ", "b\t", "température", "é", "-a", "A"}
 var plainNames = []string{"a", "b", "c", "d", "e"}
 
 // small, collision-rich scalar cells
@@ -154,5 +154,5 @@ func (r *Rng) NameFor(df *dataframe.DataFrame, names []string) string {
 	if len(ks) > 0 && r.Chance(85) {
 		return Pick(r, ks)
 	}
-	return Pick(r, append([]string{"zz", "nope"}, names...))
+	return Pick(r, append([]string{"zz", "nope", "temperature", "ü"}, names...))
 }
